@@ -259,6 +259,38 @@ Theorem checked_weighted_spec_sound : forall n W L G streams,
 Proof. exact checked_weighted_sound. Qed.
 Print Assumptions checked_weighted_spec_sound.
 
+(* ================= default rank / world_size arguments =================
+   SemiSampler (like ClassBalancedSampler / WeightedSampler, see C12's Property file) takes rank / world_size left at
+   None from the process group AS IT IS AT CONSTRUCTION; queries and samplers constructed earlier in the process
+   (EvQuery) are irrelevant; explicit arguments win (also rank 0) *)
+Theorem semi_rank_resolution_independent_of_history : forall c rank world g evs rnd draw,
+    semi_built c rank world (pg_after g evs) rnd draw
+    = semi_built c rank world (pg_after g (filter (fun ev => negb (is_query ev)) evs)) rnd draw.
+Proof. exact semi_built_history. Qed.
+Print Assumptions semi_rank_resolution_independent_of_history.
+
+Theorem semi_default_arguments_are_explicit_arguments : forall r W evs, joined_as r W evs -> forall c rnd draw,
+    semi_built c None None (pg_after pg_fresh evs) rnd draw = semi_run_rnd (se_set_world c W) rnd draw r.
+Proof. exact semi_built_default. Qed.
+Print Assumptions semi_default_arguments_are_explicit_arguments.
+
+Theorem semi_explicit_arguments_win : forall c r W g rnd draw,
+    semi_built c (Some r) (Some W) g rnd draw = semi_run_rnd (se_set_world c W) rnd draw r.
+Proof. exact semi_built_explicit. Qed.
+Print Assumptions semi_explicit_arguments_win.
+
+(* the W processes of a group, each with a history of its own: equally long streams of effective_length / W indices,
+   generators seeded by the process's rank in the group *)
+Theorem semi_default_arguments_ranks : forall c rnd draw W (hist : nat -> list pg_event),
+    perm_oracle draw -> semi_ctor_ok c = true ->
+    (forall r, r < W -> joined_as r W (hist r)) ->
+    forall r, r < W ->
+    let m := semi_built c None None (pg_after pg_fresh (hist r)) rnd draw in
+    exists s, r_out m = Ok s /\ length s = semi_E c / W /\ r_len m = semi_E c / W /\
+              r_seeds m = [Z.of_nat r; se_epoch c; (se_seed c + rnd (Z.of_nat r) + rnd (se_epoch c))%Z].
+Proof. exact semi_default_ranks. Qed.
+Print Assumptions semi_default_arguments_ranks.
+
 (* ================= non-vacuity of the premises ================= *)
 Example identity_oracle_is_perm_oracle : perm_oracle (fun _ _ n => seq 0 n).
 Proof. intros s h n. apply Permutation_refl. Qed.
@@ -322,3 +354,11 @@ Example semi_rank_example :
               se_seed := 0; se_epoch := 0; se_W := 2 |} in
   semi_ctor_ok c = true /\ r_out (semi_run c 5 7 (fun _ _ n => seq 0 n) 1) = Ok [0; 1].
 Proof. vm_compute. split; reflexivity. Qed.
+
+Example semi_default_arguments_example :
+  let c := {| se_classes := [0; 1; -1; -1]%Z; se_L := 1; se_U := 1; se_mode := MAll; se_seed := 0; se_epoch := 0; se_W := 0 |} in
+  joined_as 1 2 [EvQuery; EvInit 1 2; EvQuery] /\
+  r_seeds (semi_built c None None (pg_after pg_fresh [EvQuery; EvInit 1 2; EvQuery]) (fun x => x) (fun _ _ n => seq 0 n))
+  = [1; 0; 1]%Z /\
+  r_len (semi_built c None None (pg_after pg_fresh [EvQuery; EvInit 1 2; EvQuery]) (fun x => x) (fun _ _ n => seq 0 n)) = 2.
+Proof. split; [exists [EvQuery], [EvQuery]; repeat split|vm_compute; split; reflexivity]. Qed.
